@@ -108,3 +108,71 @@ Proof.
   unfold src_handle_stale_while_revalidate, handle_stale_while_revalidate, strip_qualified. cbv zeta.
   destruct qualified; cbn [p_hdr with_hdr response_of entry_with_hdr e_hdr]; apply peq_refl.
 Qed.
+
+(* CalculateFreshness *)
+Lemma max_age_is_present rs ma : resp_max_age rs = Some ma -> resp_max_age_present rs = true.
+Proof.
+  unfold resp_max_age, resp_max_age_present, duration_directive, has_token, amem.
+  destruct (alookup (bs "max-age") rs); [reflexivity|discriminate].
+Qed.
+
+Ltac fresh_rest age :=
+  unfold expires_header;
+  try (match goal with |- context [hget (bs "Expires") ?h] => destruct (hget (bs "Expires") h) as [|? ?] end;
+       [cbn [fst snd negb andb]
+       |match goal with |- context [raw_time (?c0 :: ?v0)] => destruct (raw_time (c0 :: v0)) as [?ex|] end; cbn [fst snd negb andb]]);
+  try match goal with |- context [date_header ?h <? ?ex] => destruct (date_header h <? ex) end;
+  try match goal with |- context [is_heuristically_cacheable ?s || resp_public ?rs] => destruct (is_heuristically_cacheable s || resp_public rs) end;
+  (match goal with |- context [req_min_fresh ?rq] => destruct (req_min_fresh rq) as [mf|]; [destruct (0 <? mf); cbn [andb]|] end);
+  try match goal with |- context [wrap64 (?a - age) <? ?mf] => destruct (wrap64 (a - age) <? mf) end;
+  try reflexivity;
+  (match goal with |- context [req_max_stale_raw ?rq] => destruct (req_max_stale_raw rq) as [[|c v]|]; [| destruct (delta_seconds (c :: v)) as [ms|]; [destruct (0 <=? ms)|] |] end);
+  try reflexivity.
+
+Lemma tie_calculate_freshness e rq rs now : src_calculate_freshness e rq rs now = calculate_freshness e rq rs now.
+Proof.
+  unfold src_calculate_freshness, calculate_freshness, entry_age, response_lifetime, max_stale_value, dur_add. cbv zeta.
+  cbn [p_hdr response_of p_status fst snd].
+  set (age := current_age (e_hdr e) (date_header (e_hdr e)) (e_req_at e) (e_recv_at e) now).
+  destruct (req_max_age rq) as [m|].
+  - destruct (Z.eqb_spec m 0) as [->|Hm]; [reflexivity|].
+    destruct m as [|p|p]; [contradiction| |];
+      (destruct (resp_max_age rs) as [ma|] eqn:Ema;
+       [rewrite (max_age_is_present _ _ Ema); cbn [negb]; destruct (0 <=? ma); fresh_rest age
+       |destruct (resp_max_age_present rs); cbn [negb]; fresh_rest age]).
+  - destruct (resp_max_age rs) as [ma|] eqn:Ema;
+       [rewrite (max_age_is_present _ _ Ema); cbn [negb]; destruct (0 <=? ma); fresh_rest age
+       |destruct (resp_max_age_present rs); cbn [negb]; fresh_rest age].
+Qed.
+
+(* calculateCurrentAge, heuristicFreshness *)
+From Coq Require Import Lia.
+
+Lemma wrap64_small x : 0 <= x <= max64 -> wrap64 x = x.
+Proof.
+  unfold wrap64, two63, two64, max64. intros H.
+  rewrite Z.mod_small by lia. lia.
+Qed.
+
+Lemma tie_current_age h date rt st now :
+  src_current_age h date rt st now = (current_age h date rt st now, now).
+Proof.
+  unfold src_current_age, current_age. cbv zeta.
+  assert (Hmul : forall v, (v <=? 9223372036) = true -> wrap64 (Z.max v 0 * 1000000000) = Z.max v 0 * second).
+  { intros v Hv. apply Z.leb_le in Hv. unfold second. apply wrap64_small. unfold max64. lia. }
+  change max_delta_seconds with 9223372036. change max64 with 9223372036854775807 at 1.
+  destruct (hget (bs "Age") h) as [|c s] eqn:Ea.
+  - cbn [beq negb]. change (0 <=? 9223372036) with true. cbv iota.
+    rewrite (Hmul 0 eq_refl). reflexivity.
+  - assert (Hb : beq (c :: s) (bs "") = false) by reflexivity. rewrite Hb. cbn [negb].
+    destruct (atoi_drop_err (c :: s) <=? 9223372036) eqn:El; [rewrite (Hmul _ El)|]; reflexivity.
+Qed.
+
+Lemma tie_heuristic_freshness h date : src_heuristic_freshness h date = heuristic_freshness h date.
+Proof.
+  unfold src_heuristic_freshness, heuristic_freshness.
+  destruct (raw_time (hget (bs "Last-Modified") h)) as [lm|]; [|reflexivity].
+  destruct (lm <? date) eqn:E; cbn [negb]; [|reflexivity].
+  apply Z.ltb_lt in E. apply Z.quot_div_nonneg; [|lia].
+  unfold time_sub, sat64, min64, max64. lia.
+Qed.
